@@ -81,15 +81,33 @@ def run(chk: Check):
     chk.proof_stage(PROP_FILE)
     n_hp = 120 if chk.tier == "quick" else 2000
     history = []
-    for _ in range(n_hp):
+    held = []        # (object, its bytes when it was returned / handed over, what it is): results a caller still holds while it goes on filtering
+    prev = None
+    for it in range(n_hp):
         n = rng.choice([3, 4, 5, 8, 17, 40, 100, 333, 1000, 2000, rng.randint(3, 2000)])
         shape = rng.choice(["walk", "walk", "alternating", "linear", "constant", "two_valued"])
         lam = 10.0 ** rng.uniform(-3, 7)
+        if prev is not None and it % 3 == 1:
+            n, lam = prev[0], prev[1]          # another series of the same length with the same lambda (what a calibration does thousands of times)
+            chk.count("hp:same_length_and_lambda_as_the_previous_call")
         y = gen_series(rng, n, shape) * rng.choice([1.0, 1.0, 1e-8, 1e8, -3.0]) + rng.choice([0.0, 0.0, 1e4])
+        if prev is not None and it % 9 == 4 and len(prev[2]) == n:
+            y = prev[2]                        # the trend returned by the previous call, filtered once more with the same lambda
+            shape = "previous_trend"
+            chk.count("hp:previous_trend_filtered_again")
         case = {"case": {"kind": "hp", "n": n, "shape": shape, "lambda": lam}}
+        y_in = y if shape == "previous_trend" else y.copy()
+        y = y.copy()
         with warnings.catch_warnings():
             warnings.simplefilter("ignore")
-            cycle, trend = hp_filter(y.copy(), lam)
+            cycle, trend = hp_filter(y_in, lam)
+        if y_in.tobytes() != y.tobytes():
+            chk.fail("hp_filter modified the series it was given", case)
+        for obj, snap, what in held:
+            if obj.tobytes() != snap:
+                chk.fail(f"a later hp_filter call (n={n}, lambda={lam!r}) changed {what} of an earlier call that the caller still holds", case)
+        held = held[-6:] + [(cycle, cycle.tobytes(), "the cycle"), (trend, trend.tobytes(), "the trend")]
+        prev = (n, lam, trend)
         chk.case(["hp", n, shape, lam, y[:5].tolist()], shape in ("walk", "alternating", "two_valued"), {"n": n, "shape": shape, "lambda": lam, "trend_head": trend[:3].tolist()})
         chk.count("hp:" + shape); chk.count("numeric_tolerance_cases")
         scale = max(float(np.max(np.abs(y))), 1e-300)
